@@ -57,6 +57,12 @@ def _t_scale(c, a):
     return c * np.asarray(a)
 
 
+def _t_full(a, c):
+    if isinstance(a, (tuple, list)):
+        return tuple(_t_full(x, c) for x in a)
+    return np.full(np.shape(a), float(c))
+
+
 def _t_add(a, b):
     ta, tb = isinstance(a, (tuple, list)), isinstance(b, (tuple, list))
     if ta != tb or (ta and len(a) != len(b)):
@@ -153,7 +159,8 @@ def T():
         def post(res):
             if len(res) != kk:
                 raise Viol("slice-length", f"post-processing of a fan-out {kk} transform received {len(res)} results", sig="slice")
-            return t_lin(base, [coeffs[j % len(coeffs)] for j in range(kk)], res)
+            b0 = _t_add(_t_scale(0.0, res[0]), _t_full(res[0], const)) if kk else base
+            return t_lin(b0, [coeffs[j % len(coeffs)] for j in range(kk)], res)
 
         return new, post
 
@@ -229,11 +236,17 @@ def tape_spec(draw, allow_batch=True):
 
 @st.composite
 def results_case(draw):
-    with_ps = draw(st.integers(0, 5)) == 0
+    with_ps = draw(st.integers(0, 9)) == 0
     n = draw(st.integers(1, 5))
     item = st.one_of(synth_spec(), synth_spec(), synth_spec(), synth_spec("synth_e"),
                      st.sampled_from(REAL).map(lambda r: {"kind": r}))
     pipe = draw(st.lists(item, min_size=n, max_size=n))
+    # bound the worst-case number of leaf tapes per input tape (fan-outs multiply)
+    def width(t):
+        w = {"synth": 3 if t.get("uneven") else max(t.get("k", 1), 1), "synth_e": 2 * (3 if t.get("uneven") else max(t.get("k", 1), 1))}
+        return w.get(t["kind"], 2)
+    while len(pipe) > 1 and np.prod([width(t) for t in pipe]) > 48:
+        pipe = pipe[:-1]
     if with_ps:
         pipe = pipe[:3] + [{"kind": "param_shift"}]
     nb = draw(st.sampled_from([0, 1, 1, 2, 2, 3, 3, 4, 4]))
@@ -276,6 +289,7 @@ def step():
         st.fixed_dictionaries({"op": st.just("insert"), "i": st.integers(0, 3), "t": plain_tok()}),
         st.fixed_dictionaries({"op": st.just("pop"), "i": st.one_of(st.none(), idx)}),
         st.fixed_dictionaries({"op": st.just("remove"), "t": tok()}),
+        st.fixed_dictionaries({"op": st.just("remove"), "pick": st.integers(0, 7), "as_transform": st.booleans()}),
         st.fixed_dictionaries({"op": st.just("extend"), "ts": st.lists(plain_tok(), max_size=3), "as": st.sampled_from(["list", "tuple"])}),
         st.fixed_dictionaries({"op": st.just("extend_pipe"), "other": other_pipe()}),
         st.fixed_dictionaries({"op": st.just("add"), "other": other_pipe(), "inplace": st.booleans()}),
@@ -302,7 +316,7 @@ def container_case(tier):
 
 
 def strategy(tier):
-    return st.one_of(results_case(), container_case(tier))
+    return st.one_of(results_case(), container_case(tier), container_case(tier), container_case(tier))
 
 
 def enumerate_cases(tier):
@@ -616,6 +630,19 @@ def _merge_markers(observed, allowed, n_new):
     return out
 
 
+def resolve(m, s):
+    """Steps that refer to an element of the current pipeline ('pick') are turned into explicit tokens."""
+    if s["op"] == "remove" and "pick" in s:
+        if m.slots:
+            name, arg = m.slots[s["pick"] % len(m.slots)]
+            name = "e" if name == "E" else name
+        else:
+            name, arg = "a", None
+        as_t = s["as_transform"]
+        return {"op": "remove", "t": {"t": name, "arg": None if as_t else arg, "bound": not as_t}}
+    return s
+
+
 def expect(m, s):
     """Model of one step. Returns dict(err=None|cls|('maybe', cls), slots, markers(label->set|'*'), new=bool, ret=slot|None)."""
     from pennylane.exceptions import TransformError
@@ -856,6 +883,7 @@ def check_container(spec):
     with_marker = False
     labels = ["B:container"]
     for si, s in enumerate(spec["steps"]):
+        s = resolve(m, s)
         op = s["op"]
         sig = op
         if op == "insert":
